@@ -124,6 +124,10 @@ def verdicts (c : Coin) (signed : List Signed) (h : Hist) : String :=
   let bad := if vs.contains '?' then "?" else if h.st.tx.isCoinbase then "0" else toString (vs.filter (· == '0')).length
   String.ofList vs ++ "/" ++ bad
 
+def guardsOf (s : State) : String :=
+  let g := (List.range s.tx.ins.length).map fun i => guardRefuses s i
+  String.ofList (g.map fun b => if b then '1' else '0') ++ " " ++ String.ofList (g.map fun b => if b then '0' else '?')
+
 def handle : Handler := fun op args =>
   match op, args with
   | "c06_hist", [c, tx, us, infoS, steps] => do
@@ -154,6 +158,37 @@ def handle : Handler := fun op args =>
     let mu := (List.range (n + 2)).map fun i => if missingUnspent st i then '1' else '0'
     let guard := (List.range (n + 2)).map fun i => if decide (st.us.length ≤ i) || (st.us[i]?.join).isNone then '1' else '0'
     some s!"ok {String.ofList mu} {if missingUnspents st then 1 else 0} {String.ofList guard}"
+  -- ways the unspents get populated; answer: the unspents, which is_solution_ok(i) the guard refuses, and the verdict
+  -- vector with '0' at refused positions and '?' elsewhere (there the interpreter decides)
+  | "c06_from_db", [c, tx, ign, db] => do
+    let _ ← parseCoin? c
+    let tx ← parseTx? tx
+    let ign ← (if ign = "1" then some true else if ign = "0" then some false else none)
+    let entries ← parseItems? (fun e =>
+      match e.splitOn "=" with
+      | [k, h, outs] => do
+        let outs ← (if outs = "~" then some [] else (outs.splitOn ",").mapM parseTxOut?)
+        some (← parseBytes? k, ← parseBytes? h, outs)
+      | _ => none) db
+    let dbf : TxDb := fun k => (entries.find? (fun e => e.1 == k)).map (·.2)
+    match unspentsFromDb dbf ign tx.ins with
+    | .ok us => some ("ok " ++ showUnspents us ++ " " ++ guardsOf ⟨tx, us⟩)
+    | .error e => some ("err " ++ e.tag ++ " " ++ guardsOf ⟨tx, []⟩)
+  | "c06_set_unspents", [c, tx, us] => do
+    let _ ← parseCoin? c
+    let tx ← parseTx? tx; let us ← parseUnspents? us
+    match setUnspents ⟨tx, []⟩ us with
+    | .ok s => some ("ok " ++ guardsOf s)
+    | .error e => some ("err " ++ e.tag ++ " " ++ guardsOf ⟨tx, []⟩)
+  | "c06_parse_unspents", [c, tx, us] => do
+    let c ← parseCoin? c
+    let tx ← parseTx? tx; let us ← parseUnspents? us
+    match tx.asBin us true with
+    | .error e => some ("err " ++ e.tag)
+    | .ok b =>
+      match Tx.fromBin c b with
+      | .error e => some ("err " ++ e.tag)
+      | .ok (tx2, us2) => some ("ok " ++ showUnspents us2 ++ " " ++ guardsOf ⟨tx2, us2⟩)
   | "c06_cache", [salt, hts] => do
     let salt ← parseNat? salt
     let hts ← parseList? parseNat? hts
